@@ -80,6 +80,7 @@ type Conn struct {
 	Announce  []byte
 	wmu       sync.Mutex
 	AuthKey   []byte
+	LastFrame []byte // the last frame written to this connection
 	SessionID int64
 	FirstKind string // "plain" | "keyid" : what the first frame on this connection was
 	closed    bool
@@ -184,6 +185,7 @@ func readFrame(c net.Conn) ([]byte, error) {
 func (c *Conn) WriteFrame(b []byte) error {
 	c.wmu.Lock()
 	defer c.wmu.Unlock()
+	c.LastFrame = append([]byte{}, b...)
 	var h [4]byte
 	binary.LittleEndian.PutUint32(h[:], uint32(len(b)))
 	_, err := c.C.Write(append(h[:], b...))
@@ -396,7 +398,17 @@ func (c *Conn) handlePlain(hs *hsState, f []byte) {
 		}
 		var w W
 		w.U32(CrcResPQ).Raw(nonce).Raw(sn).Str(new(big.Int).Mul(hs.p, hs.q).Bytes())
-		w.U32(CrcVector).U32(1).Raw(fp)
+		if lie.at("resPQ", "fingerprints") {
+			w.U32(CrcVector).U32(1).Raw(fp)
+		} else {
+			// a server may offer several keys; the client answers with the fingerprint of the one it knows.  The
+			// position of that key in the list varies with the connection
+			other1, other2 := Sha1(fp, []byte{1})[:8], Sha1(fp, []byte{2})[:8]
+			list := [][]byte{fp, other1, other2}
+			k := c.ID % 3
+			list[0], list[k] = list[k], list[0]
+			w.U32(CrcVector).U32(3).Raw(list[0]).Raw(list[1]).Raw(list[2])
+		}
 		if lie.at("resPQ", "kind") {
 			var x W
 			x.U32(CrcDHGenFail).Raw(nonce).Raw(sn).Raw(make([]byte, 16))
@@ -408,7 +420,12 @@ func (c *Conn) handlePlain(hs *hsState, f []byte) {
 		body.Take(32)
 		body.Str()
 		body.Str()
-		body.I64()
+		gotFP := body.Take(8)
+		if !bytes.Equal(gotFP, Fingerprint(&s.Priv.PublicKey)) && (lie == nil || !lie.at("resPQ", "fingerprints")) {
+			s.Log("conn %d: req_DH_params names a key this server does not hold", c.ID)
+			c.Close()
+			return
+		}
 		enc := body.Str()
 		m := new(big.Int).Exp(new(big.Int).SetBytes(enc), s.Priv.D, s.Priv.N).Bytes()
 		m = LeftPad(m, 255)
